@@ -134,6 +134,9 @@ func Tokens(s string, c Ctx, max int) []Tok {
 					p++
 					cur = sBogusPct
 				case alpha(b) || b == 0:
+					// port rule P7 (repair F9): a start tag is never a close tag; upstream keeps the flag of an
+					// earlier end tag that had blanks, '/' or attributes before its '>'
+					closing = false
 					cur = sTagName
 				default:
 					if p == 0 {
